@@ -3,18 +3,22 @@
 
   real `generate_jaqal_value(x)`                      vs  op `gen_num`
   real `JaqalLexer().tokenize(text)` (one token?)     vs  op `read_literal`
+  `re.match` of the lexer's NUMBER / INT patterns     vs  ops `match_number`, `match_int` (prefix matches)
 
 Run:  /venv/bin/python /verif/harness/agents/num_diff.py [--lean-dir /verif/lean] [--n 6000] [--seed 1]
 It builds `JaqalModel.Model.NumTextOps` in the lean dir and talks to a tiny line-protocol driver run
 with `lake env lean --run` (or pass `--driver "<cmd>"` for a native driver that knows the two ops).
 Exit status 0 iff there are zero differences.
 """
-import argparse, json, os, random, subprocess, sys, tempfile
+import argparse, json, os, random, re, subprocess, sys, tempfile
 from decimal import Decimal
 
 from jaqalpaq.generator.generator import generate_jaqal_value
 from jaqalpaq.parser.slyparse import JaqalLexer
 from jaqalpaq.error import JaqalError
+
+NUMBER_RE = r"[-+]?[0-9]*\.[0-9]+([eE][-+]?[0-9]+)?"
+INT_RE = r"[-+]?[0-9]+"
 
 DRIVER = r'''
 import JaqalModel.Model.NumTextOps
@@ -203,6 +207,22 @@ def main():
     print(f"read_literal: {len(texts)} texts ({exact} compared by exact value, {kinds} by token kind/None, "
           f"{skipped} skipped as inf), differences: {bad2}")
 
+    # ---------- prefix matches of the two token patterns (taken from the lexer class) -----------
+    pats = {"match_number": re.compile(JaqalLexer.NUMBER.pattern if hasattr(JaqalLexer.NUMBER, "pattern") else NUMBER_RE),
+            "match_int": re.compile(JaqalLexer.INT.pattern if hasattr(JaqalLexer.INT, "pattern") else INT_RE)}
+    soup = [t for t in texts if "\n" not in t] + [t + rng.choice(" ;|x.eE+-0") + t2
+                                                   for t, t2 in zip(real_text[:2000], real_text[1000:3000])]
+    bad4 = 0
+    for op, pat in pats.items():
+        outs = run_model([{"op": op, "text": t} for t in soup], a.lean_dir, a.driver)
+        for t, o in zip(soup, outs):
+            m = pat.match(t)
+            want = None if m is None else [t[: m.end()], t[m.end():]]
+            if o.get("out", "missing") != want:
+                bad4 += 1
+                if bad4 <= 20: print("MATCH DIFF", op, repr(t), "re", want, "model", o)
+    print(f"match_number/match_int vs re.match: 2 x {len(soup)} texts, differences: {bad4}")
+
     # ---------- round trip and token separation on the real code (sanity of the harness) ------
     bad3 = 0
     for v, t in zip(values, real_text):
@@ -213,7 +233,7 @@ def main():
             bad3 += 1
             if bad3 <= 20: print("REAL ROUNDTRIP FAIL", repr(v), t, toks)
     print(f"real code round trip / separation: {len(values)} values, failures: {bad3}")
-    sys.exit(1 if bad or bad2 or bad3 else 0)
+    sys.exit(1 if bad or bad2 or bad3 or bad4 else 0)
 
 
 if __name__ == "__main__":
